@@ -9,7 +9,7 @@ RULE = ('structured lattice: years {range ends, 0, epoch, i32 extremes} +-2 and 
         'positive and negative) x months {0..13,255,2^31,u32::MAX} x days {0..2,27..33,...}; ordinals at every '
         'month boundary +-1 and {0,365..368,...}; ISO weeks {0,1,2,51..55,...} x 7 weekdays; day numbers at '
         'range ends, multiples of 146097, i32 extremes, checked_add(365) boundary; adjacent / same-week / '
-        'random date pairs for the orders; seeded random draws; d.range windows (quick: range ends, year '
+        'random date pairs for the orders; leap_year / week0 / day number through NaiveDateTime and the panicking constructor twins on the same lattices; seeded random draws; d.range windows (quick: range ends, year '
         'boundary of every residue, epoch, day 0, the whole cycle 1601..2000; thorough: all 191,491,529 day numbers in 4096-day chunks)')
 
 MIN_YEAR, MAX_YEAR = -262143, 262142
@@ -148,6 +148,21 @@ def structured(tier, rng):
         dns += around([k * 146097, k * 146097 + 36524 * 3, k * 146097 + 36524], (-1, 0, 1))
     for n in dns:
         yield case_line('d.days', n)
+        yield case_line('d.pdays', n)
+    # the panicking twins on a reduced lattice
+    for y in yb:
+        for m in months[::2] + [2, 12, 13]:
+            for d in (0, 1, 28, 29, 30, 31, 32, U32_MAX):
+                yield case_line('d.pymd', y, m, d)
+        for o in ords[:11] + [U32_MAX]:
+            yield case_line('d.pyo', y, o)
+        for w in (0, 1, 52, 53, 54, U32_MAX):
+            for wd in (0, 3, 6):
+                yield case_line('d.pisoywd', y, w, wd)
+    for y in yr:
+        yield case_line('d.pymd', y, 2, 29)
+        yield case_line('d.pyo', y, 366)
+        yield case_line('d.pisoywd', y, 53, y % 7)
     # accessors at every month boundary, succ/pred at year and February boundaries
     for y in [y for y in yb if MIN_YEAR <= y <= MAX_YEAR] + yr:
         leap = is_leap(y)
@@ -159,10 +174,13 @@ def structured(tier, rng):
                     os_.add(o)
         for o in sorted(os_):
             yield case_line('d.acc', date(y, o))
+            yield case_line('d.acc2', date(y, o))
         for o in (1, 2, 59, 60, 61, 365, 366):
             if o <= ndays(y):
                 yield case_line('d.succ', date(y, o))
                 yield case_line('d.pred', date(y, o))
+                yield case_line('d.psucc', date(y, o))
+                yield case_line('d.ppred', date(y, o))
         # orders: consecutive days across the year boundary and inside the first / last ISO weeks
         if MIN_YEAR < y:
             seq = [date(y - 1, o) for o in range(ndays(y - 1) - 7, ndays(y - 1) + 1)] + [date(y, o) for o in range(1, 9)]
@@ -222,10 +240,12 @@ def randoms(tier, rng):
             k = rng.random()
             nn = rng.randint(DN_MIN, DN_MAX) if k < 0.8 else (rng.choice([DN_MIN, DN_MAX]) + rng.randint(-500, 500) if k < 0.9 else rand_i32(rng))
             yield case_line('d.days', nn)
-        elif r < 0.70:
+        elif r < 0.66:
             yield case_line('d.acc', rand_date(rng))
+        elif r < 0.70:
+            yield case_line('d.acc2', rand_date(rng))
         elif r < 0.78:
-            yield case_line(rng.choice(['d.succ', 'd.pred']), rand_date(rng))
+            yield case_line(rng.choice(['d.succ', 'd.pred', 'd.succ', 'd.pred', 'd.psucc', 'd.ppred']), rand_date(rng))
         else:
             a = rand_date(rng)
             b = near(rng, a) if rng.random() < 0.7 else rand_date(rng)
